@@ -12,6 +12,7 @@ import LdkModel.Proofs.OutboundFee
 import LdkModel.Proofs.OutboundRetry
 import LdkModel.Proofs.OutboundProbe
 import LdkModel.Proofs.OutboundRestart
+import LdkModel.Proofs.OnchainFailed
 namespace Ldk.C03
 open Ldk Ldk.OutboundPay
 
@@ -587,5 +588,138 @@ example : ¬ AllOk (fun p => p == 1) 1 init
       [.persist, .send 1 [1, 2], .claim 1 1 true, .handle, .restore, .insert 1 2, .fail 1 2 false false] ∧
     (run init [.persist, .send 1 [1, 2], .claim 1 1 true, .handle, .restore, .insert 1 2, .fail 1 2 false false]).2 =
       [.sent 1, .pathOk 1 1, .pathFailed 1 2, .failed 1 .retriesExhausted] := by decide
+
+/-! ### Restart reconstruction from the monitors: `ChannelMonitor::get_onchain_failed_outbound_htlcs`
+    (Model/OnchainFailed.lean over Generated/OnchainFailed.lean). `ChannelManager::read` reports every source in
+    `onchainFailed m` as failed (`PaymentPathFailed`, `PaymentFailed` once no part is left). Quantified over EVERY monitor
+    view `m` (any txids, any HTLC lists, any awaiting / resolved entries). -/
+section OnchainFailed
+open Ldk.OnchainFailed
+
+/-- An outbound HTLC with a LIVE NON-DUST OUTPUT in the confirmed commitment transaction is never reported failed on
+    restart — whichever of the four commitment transactions a monitor can see confirmed it is (current or previous
+    unrevoked counterparty commitment, current or previous holder commitment; `commitmentHtlcs` is the specification,
+    independent of the translated arm tests). -/
+theorem live_output_never_reported_failed_on_restart (m : Mon) (t s : Nat)
+    (hconf : confirmedTxid m = some t)
+    (hin : ∃ h ∈ commitmentHtlcs m t, h.src = some s)
+    (hlive : ∀ h ∈ commitmentHtlcs m t, h.src = some s → ∃ i, h.outIdx = some i ∧ Live m i) :
+    s ∉ onchainFailed m := by
+  intro hmem
+  obtain ⟨t', ht', c, _, hw⟩ := (mem_onchainFailed m s).mp hmem
+  have : t' = t := by rw [hconf] at ht'; exact (Option.some.inj ht').symm
+  subst this
+  have hc := walkOne_src m _ c s hw
+  have hex : ∃ h ∈ confirmedHtlcs m t', h.src = some s := by
+    obtain ⟨h, hm, hs⟩ := hin
+    exact ⟨h, (mem_confirmedHtlcs m t' h (by simp [hs])).mpr hm, hs⟩
+  have hall : ∀ h ∈ confirmedHtlcs m t', h.src = some s → ∃ i, h.outIdx = some i ∧ Live m i :=
+    fun h hm hs => hlive h ((mem_confirmedHtlcs m t' h (by simp [hs])).mp hm) hs
+  rw [walkOne_live m _ c s hc hex hall] at hw
+  cases hw
+
+/-- the round-5 situation: the counterparty's PREVIOUS (unrevoked) commitment 7 confirmed 6 deep; HTLC 1 has output 0 in
+    it, HTLC 2 exists only in the current counterparty commitment 8: only 2 is reported -/
+def prevCpConfirmed : Mon :=
+  { best := 106, fundingSpendConfirmed := none, awaiting := [⟨7, 101, true⟩], curCp := some 8, prevCp := some 7,
+    cpCur := [⟨some 1, some 0⟩, ⟨some 2, some 1⟩], cpPrev := [⟨some 1, some 0⟩, ⟨none, some 2⟩], holderCurTxid := 9,
+    holderCur := [⟨some 1, some 0⟩], holderPrev := none, resolvedToUser := [], resolvedOnChain := [] }
+
+example : confirmedTxid prevCpConfirmed = some 7 ∧ onchainFailed prevCpConfirmed = [2] ∧
+    (∃ h ∈ commitmentHtlcs prevCpConfirmed 7, h.src = some 1) := by decide
+-- once the output is resolved WITHOUT a preimage (our timeout claim buried) the HTLC is reported; with a preimage it is not
+example : onchainFailed { prevCpConfirmed with resolvedOnChain := [⟨some 0, none⟩] } = [1, 2, 1] ∧
+    onchainFailed { prevCpConfirmed with resolvedOnChain := [⟨some 0, some 0⟩] } = [2] := by decide
+
+/-- Nothing is reported failed while the funding spend has fewer than ANTI_REORG_DELAY confirmations (`best - height + 1`)
+    and `funding_spend_confirmed` is not set. -/
+theorem nothing_reported_failed_before_anti_reorg_delay (m : Mon) (h0 : m.fundingSpendConfirmed = none)
+    (h1 : ∀ e ∈ m.awaiting, e.isFundingSpend = true → m.best + 1 < e.height + ANTI_REORG_DELAY) :
+    onchainFailed m = [] := by
+  unfold onchainFailed
+  rw [confirmedTxid_none m h0 h1]
+
+example : onchainFailed { prevCpConfirmed with best := 105 } = [] ∧ onchainFailed prevCpConfirmed ≠ [] := by decide
+
+/-- What IS reported failed on restart has really failed on chain: the funding spend is irrevocably confirmed, the user has
+    not been told yet, the HTLC is one of the unrevoked counterparty commitments' HTLCs, and in the confirmed commitment
+    it is either absent, or dust, or its output was irrevocably resolved without a preimage. -/
+theorem reported_failed_on_restart_is_failed_on_chain (m : Mon) (s : Nat) (h : s ∈ onchainFailed m) :
+    ∃ t, confirmedTxid m = some t ∧ s ∉ m.resolvedToUser ∧ (∃ c ∈ candidateHtlcs m, c.src = some s) ∧
+      ((∀ x ∈ commitmentHtlcs m t, x.src ≠ some s) ∨
+       ∃ x ∈ commitmentHtlcs m t, x.src = some s ∧
+         (x.outIdx = none ∨ ∃ r ∈ m.resolvedOnChain, r.outIdx = x.outIdx ∧ r.preimage = none)) := by
+  obtain ⟨t, ht, c, hcm, hw⟩ := (mem_onchainFailed m s).mp h
+  obtain ⟨hr, hcases⟩ := walkOne_some_cases m _ c s hw
+  refine ⟨t, ht, hr, ⟨c, hcm, walkOne_src m _ c s hw⟩, ?_⟩
+  rcases hcases with hn | ⟨x, hx, hs, hres⟩
+  · left
+    intro x hx hs
+    exact hn x ((mem_confirmedHtlcs m t x (by simp [hs])).mpr hx) hs
+  · right
+    exact ⟨x, (mem_confirmedHtlcs m t x (by simp [hs])).mp hx, hs, hres⟩
+
+example : 2 ∈ onchainFailed prevCpConfirmed := by decide
+
+/-- Completeness for HTLCs that did not make it into the confirmed commitment: once the funding spend is irrevocably
+    confirmed, a not yet reported HTLC of an unrevoked counterparty commitment that the confirmed commitment does not
+    contain IS reported failed (so the payment reaches its terminal event after the restart). -/
+theorem not_included_is_reported_failed_on_restart (m : Mon) (t s : Nat) (hconf : confirmedTxid m = some t)
+    (hc : ∃ c ∈ candidateHtlcs m, c.src = some s) (hr : s ∉ m.resolvedToUser)
+    (hn : ∀ x ∈ commitmentHtlcs m t, x.src ≠ some s) : s ∈ onchainFailed m := by
+  obtain ⟨c, hcm, hcs⟩ := hc
+  refine (mem_onchainFailed m s).mpr ⟨t, hconf, c, hcm, ?_⟩
+  apply walkOne_not_included m _ c s hcs hr
+  intro x hx hs
+  exact hn x ((mem_confirmedHtlcs m t x (by simp [hs])).mp hx) hs
+
+example : (∀ x ∈ commitmentHtlcs prevCpConfirmed 7, x.src ≠ some 2) ∧ 2 ∈ onchainFailed prevCpConfirmed := by decide
+
+/-- An HTLC whose resolution the user has already handled (`htlcs_resolved_to_user`) is never reported again. -/
+theorem resolved_to_user_never_reported_again (m : Mon) (s : Nat) (h : s ∈ m.resolvedToUser) : s ∉ onchainFailed m := by
+  intro hm
+  exact (reported_failed_on_restart_is_failed_on_chain m s hm).elim fun _ ht => ht.2.1 h
+
+example : onchainFailed { prevCpConfirmed with resolvedToUser := [2] } = [] := by decide
+
+/-- Every HTLC of BOTH unrevoked counterparty commitments is examined (the ones the sender may have to resolve: see
+    `fail_unbroadcast_htlcs`): none is forgotten by the restart reconstruction. -/
+theorem every_unrevoked_counterparty_htlc_is_examined (m : Mon) (a b : Nat) (ha : m.curCp = some a) (hb : m.prevCp = some b)
+    (hab : a ≠ b) (h : Htlc) (hm : h ∈ m.cpCur ∨ h ∈ m.cpPrev) : h ∈ candidateHtlcs m := by
+  have hba : ¬ (some a = some b) := fun e => hab (Option.some.inj e)
+  rcases hm with hm | hm
+  · simp [candidateHtlcs, OnchainFailedGen.candidates, cpHtlcs, ha, hb, hm]
+  · simp [candidateHtlcs, OnchainFailedGen.candidates, cpHtlcs, ha, hb, hm, hab]
+
+example : candidateHtlcs prevCpConfirmed = [⟨some 1, some 0⟩, ⟨some 2, some 1⟩, ⟨some 1, some 0⟩, ⟨none, some 2⟩] := by decide
+
+/-- Restart never forgets an HTLC in flight: every outbound HTLC of either unrevoked counterparty commitment whose
+    resolution the user has not handled yet is listed by `get_all_current_outbound_htlcs` (and therefore re-inserted into
+    `pending_outbound_payments` by `ChannelManager::read`). -/
+theorem unresolved_htlc_always_listed_on_restart (m : Mon) (a b : Nat) (ha : m.curCp = some a) (hb : m.prevCp = some b)
+    (hab : a ≠ b) (h : Htlc) (s : Nat) (hm : h ∈ m.cpCur ∨ h ∈ m.cpPrev) (hs : h.src = some s)
+    (hr : s ∉ m.resolvedToUser) : s ∈ allCurrentOutbound m := by
+  unfold allCurrentOutbound
+  rw [List.mem_filterMap]
+  refine ⟨h, ?_, by simp [hs, OnchainFailedGen.listedUnresolved, hr]⟩
+  rcases hm with hm | hm
+  · simp [OnchainFailedGen.allCurrentLists, cpHtlcs, ha, hb, hm]
+  · simp [OnchainFailedGen.allCurrentLists, cpHtlcs, ha, hb, hm, hab]
+
+example : allCurrentOutbound prevCpConfirmed = [1, 2, 1] ∧
+    allCurrentOutbound { prevCpConfirmed with resolvedToUser := [2] } = [1, 1] := by decide
+
+/-- Whatever a restart reports failed on chain it has also listed (so `fail_htlc` finds the entry re-inserted by
+    `insert_from_monitor_on_startup` and the failure yields its events instead of being dropped). -/
+theorem reported_failed_on_restart_is_listed (m : Mon) (s : Nat) (h : s ∈ onchainFailed m) : s ∈ allCurrentOutbound m := by
+  obtain ⟨_, _, hr, ⟨c, hc, hsrc⟩, _⟩ := reported_failed_on_restart_is_failed_on_chain m s h
+  unfold allCurrentOutbound
+  rw [List.mem_filterMap]
+  refine ⟨c, ?_, by simp [hsrc, OnchainFailedGen.listedUnresolved, hr]⟩
+  simpa [candidateHtlcs, OnchainFailedGen.candidates, OnchainFailedGen.allCurrentLists] using hc
+
+example : onchainFailed prevCpConfirmed = [2] ∧ 2 ∈ allCurrentOutbound prevCpConfirmed := by decide
+
+end OnchainFailed
 
 end Ldk.C03
